@@ -177,6 +177,12 @@ def independent_analysis(mod, classes):
             builtin = end in (int, float, str, bool, datetime, type(None))
             fl = {"optional": optional, "container": container or type_valued, "enum": is_enum, "builtin": builtin,
                   "type_valued": type_valued}
+            # a collection of plain values (one column holds it): every element type - seen through an Optional, whatever
+            # the length of a tuple - is a builtin class
+            inner = t if not optional else [a for a in args if a is not type(None)][0]
+            elems = [([x for x in typing.get_args(a) if x is not type(None)][0] if opt(a) else a)
+                     for a in typing.get_args(inner) if a is not Ellipsis]
+            fl["collection_of_builtins"] = bool(container and elems and all(isinstance(e, type) and e.__module__ == "builtins" for e in elems))
             if end in inset:
                 assoc[(c.__name__, f.name)] = end.__name__
                 fl["one_to_one"] = not (container or type_valued)
@@ -410,7 +416,8 @@ def run(case, ctx):
                 C["fields_classified"] += 1
                 try:
                     got = {"optional": bool(wf.is_optional), "container": bool(wf.is_container), "enum": bool(wf.is_enum),
-                           "builtin": bool(wf.is_builtin_type), "type_valued": bool(wf.is_type_type)}
+                           "builtin": bool(wf.is_builtin_type), "type_valued": bool(wf.is_type_type),
+                           "collection_of_builtins": bool(wf.is_collection_of_builtins)}
                     if "one_to_one" in fl:
                         got["one_to_one"] = bool(wf.is_one_to_one_relationship)
                         got["one_to_many"] = bool(wf.is_one_to_many_relationship and not wf.is_type_type)
